@@ -1,10 +1,235 @@
-import IstioModel.C20.Spec
+import IstioModel.C20.NatOutput
 
-/-! C20 - theorems (work in progress: the closed forms and the property theorems follow). -/
+/-!
+C20 - the property theorems.
+
+Objects: `compile` (Model.lean, the model of IptablesConfigurator.Run), `rulesOf c f` (the builder's
+rule list of family `f`), `evalTable d rules t h p` / `traverse` (Netfilter.lean, the meaning of a rule
+list), and the policy vocabulary of Spec.lean.  Every theorem quantifies over ALL configurations `c`
+of the modelled grammar, ALL packets `p` and every jump-stack bound `d + 2` (two nested user chains are
+all the generated rule sets need).  `famOn c p.fam` only says that the packet's family has rules at
+all (an IPv6 packet with `EnableIPv6 = false` meets an empty ip6tables).
+-/
 namespace IstioModel.C20
+set_option linter.unusedSimpArgs false
 
-/-- Without `EnableIPv6` the builder's IPv6 rule list stays empty: IPv6 packets meet no rule. -/
-theorem rulesOf_v6_disabled (c : Config) (h : c.enableIPv6 = false) : rulesOf c .v6 = [] := by
-  simp [rulesOf, h]
+/-! ## The compiler is correct for nat/OUTPUT -/
+
+/-- **Compiler correctness, nat table, OUTPUT hook**: for every configuration, both families, with or
+    without DNS capture / TPROXY / owner-group filters, the installed rules decide every packet exactly
+    as the policy `natOutputSpec` says. -/
+theorem nat_output_eq_spec (c : Config) (p : Packet) (d : Nat) (h : famOn c p.fam = true) :
+    evalTable (d + 2) (rulesOf c p.fam) .nat .output p = natOutputSpec c p :=
+  nat_output_correct c p d h
+
+/-- The jump stack never overflows: the generated nat/OUTPUT rules contain no chain cycle. -/
+theorem nat_output_no_chain_loop (c : Config) (p : Packet) (d : Nat) (h : famOn c p.fam = true) :
+    evalTable (d + 2) (rulesOf c p.fam) .nat .output p ≠ .loop := by
+  rw [nat_output_correct c p d h]
+  unfold natOutputSpec
+  split
+  · simp
+  · split
+    · simp
+    · simp
+    · repeat' split
+      all_goals simp
+
+/-! ## no_loop -/
+
+theorem proxyOwned_iff_identities (c : Config) (p : Packet) :
+    proxyOwned c p = c.identities.any (OwnerId.owns p) := by
+  simp only [proxyOwned, Config.identities, List.any_append, List.any_map, Function.comp_def, OwnerId.owns,
+    List.contains_eq_any_beq]
+
+/-- The identity blocks decide every packet owned by one of the identities, and send it to the inbound
+    listener only if it is a TCP packet on `lo` to a non-loopback address. -/
+theorem identityWalk_owned (c : Config) (p : Packet) (l : List OwnerId) (h : l.any (OwnerId.owns p) = true) :
+    identityWalk c p l = some false ∨
+    (identityWalk c p l = some true ∧ onLo p = true ∧ loopbackDst c p = false ∧ isTcp p = true) := by
+  induction l with
+  | nil => simp at h
+  | cons o rest ih =>
+    simp only [identityWalk]
+    by_cases ho : o.owns p = true
+    · simp only [ho, if_true]
+      cases hs : selfCall c p o
+      · simp
+      · right
+        refine ⟨rfl, ?_⟩
+        cases o <;> simp only [selfCall, Bool.and_eq_true, Bool.not_eq_true'] at hs <;>
+          exact ⟨hs.1.1.1, hs.1.1.2, hs.1.2⟩
+    · simp only [ho, Bool.false_eq_true, if_false]
+      by_cases hb : loopbackBypass c p = true
+      · simp [hb]
+      · simp only [hb, Bool.false_eq_true, if_false]
+        apply ih
+        simpa [List.any_cons, ho] using h
+
+/-- **no_loop.** A packet sent by the proxy itself (socket owned by a proxy UID or GID) is never
+    redirected by nat/OUTPUT, with one exception: a TCP connection on `lo` to a non-loopback address
+    (the application calling itself through the proxy) goes to the INBOUND capture port. In
+    particular it never reaches the outbound port and never the DNS agent. -/
+theorem no_loop (c : Config) (p : Packet) (d : Nat) (h : famOn c p.fam = true) (ho : proxyOwned c p = true) :
+    evalTable (d + 2) (rulesOf c p.fam) .nat .output p = .accept p ∨
+    (evalTable (d + 2) (rulesOf c p.fam) .nat .output p = .redirect c.inboundCapturePort ∧
+      p.outIf = "lo" ∧ loopbackDst c p = false ∧ p.proto = .tcp) := by
+  rw [nat_output_correct c p d h]
+  unfold natOutputSpec
+  split
+  · left; rfl
+  · rw [proxyOwned_iff_identities] at ho
+    rcases identityWalk_owned c p c.identities ho with hw | ⟨hw, h1, h2, h3⟩
+    · left; simp [hw]
+    · right
+      simp only [hw, true_and]
+      exact ⟨by simpa [onLo] using h1, h2, by simpa [isTcp] using h3⟩
+
+/-- no_loop, port form: the proxy's own traffic is never redirected to the outbound proxy port
+    (provided that port is not also used as the inbound capture port). -/
+theorem no_loop_outbound_port (c : Config) (p : Packet) (d : Nat) (h : famOn c p.fam = true)
+    (ho : proxyOwned c p = true) (hp : c.proxyPort ≠ c.inboundCapturePort) :
+    evalTable (d + 2) (rulesOf c p.fam) .nat .output p ≠ .redirect c.proxyPort := by
+  rcases no_loop c p d h ho with h1 | ⟨h1, _⟩ <;> rw [h1] <;> simp
+  exact fun e => hp e.symm
+
+/-- "Proxy-owned DNS is not re-captured": the proxy's own packets (the agent's upstream DNS queries
+    included) never go to the DNS agent port. -/
+theorem proxy_dns_not_recaptured (c : Config) (p : Packet) (d : Nat) (h : famOn c p.fam = true)
+    (ho : proxyOwned c p = true) (hp : c.inboundCapturePort ≠ dnsAgentPort) :
+    evalTable (d + 2) (rulesOf c p.fam) .nat .output p ≠ .redirect dnsAgentPort := by
+  rcases no_loop c p d h ho with h1 | ⟨h1, _⟩ <;> rw [h1] <;> simp
+  exact hp
+
+/-- Off `lo` the proxy's own traffic is always left alone. -/
+theorem no_loop_off_lo (c : Config) (p : Packet) (d : Nat) (h : famOn c p.fam = true)
+    (ho : proxyOwned c p = true) (hlo : p.outIf ≠ "lo") :
+    evalTable (d + 2) (rulesOf c p.fam) .nat .output p = .accept p := by
+  rcases no_loop c p d h ho with h1 | ⟨_, h2, _⟩
+  · exact h1
+  · exact absurd h2 hlo
+
+/-! ## outbound_exact -/
+
+/-- For application traffic the identity blocks only implement the loopback bypass. -/
+theorem identityWalk_app (c : Config) (p : Packet) (l : List OwnerId) (h : l.any (OwnerId.owns p) = false) :
+    identityWalk c p l = if !l.isEmpty && loopbackBypass c p then some false else none := by
+  induction l with
+  | nil => simp [identityWalk]
+  | cons o rest ih =>
+    simp only [List.any_cons, Bool.or_eq_false_iff] at h
+    simp only [identityWalk, h.1, Bool.false_eq_true, if_false, ih h.2]
+    by_cases hb : loopbackBypass c p = true <;> simp [hb]
+
+theorem hasProxyIdentity_iff (c : Config) : hasProxyIdentity c = !c.identities.isEmpty := by
+  unfold hasProxyIdentity Config.identities
+  cases c.proxyUIDs <;> cases c.proxyGIDs <;> simp
+
+/-- **Application outbound traffic, complete form**: for a packet NOT owned by the proxy, nat/OUTPUT
+    redirects to the DNS agent iff `outboundDNSCaptured`, else to the outbound proxy port iff
+    `outboundCaptured`, else leaves it alone. -/
+theorem outbound_app (c : Config) (p : Packet) (d : Nat) (h : famOn c p.fam = true)
+    (happ : proxyOwned c p = false) :
+    evalTable (d + 2) (rulesOf c p.fam) .nat .output p =
+      if outboundDNSCaptured c p then .redirect dnsAgentPort
+      else if outboundCaptured c p then .redirect c.proxyPort
+      else .accept p := by
+  rw [nat_output_correct c p d h]
+  rw [proxyOwned_iff_identities] at happ
+  unfold natOutputSpec outboundDNSCaptured outboundCaptured
+  rw [identityWalk_app c p _ happ, hasProxyIdentity_iff]
+  by_cases h0 : outIfExcluded c p = true
+  · simp [h0]
+  by_cases h1 : outPortExcluded c p = true
+  · simp [h1]
+  by_cases h2 : fromPassthrough p = true
+  · simp [h2]
+  by_cases hb : (!c.identities.isEmpty && loopbackBypass c p) = true
+  · simp [h0, h1, h2, hb]
+  by_cases h3 : ownerGroupCaptured c p = true
+  · by_cases h4 : dnsCaptured c p = true
+    · simp [h0, h1, h2, hb, h3, h4]
+    by_cases h5 : loopbackDst c p = true
+    · simp [h0, h1, h2, hb, h3, h4, h5]
+    by_cases h6 : dstExcluded c p = true
+    · simp [h0, h1, h2, hb, h3, h4, h5, h6]
+    by_cases h8 : isTcp p = true <;>
+      by_cases h7 : (outPortIncluded c p || dstIncluded c p) = true <;>
+      simp [h0, h1, h2, hb, h3, h4, h5, h6, h7, h8]
+  · simp [h0, h1, h2, hb, h3]
+
+/-- **outbound_exact.** An application packet (not DNS-captured) is redirected to the outbound proxy port
+    IF AND ONLY IF it is TCP, its destination is in the included ranges (or its port in the included
+    ports) and not in an excluded range, its port not excluded, its interface not excluded, it is not
+    for the loopback range, its owner group is captured, and it is not `lo` traffic that is bypassed. -/
+theorem outbound_exact (c : Config) (p : Packet) (d : Nat) (h : famOn c p.fam = true)
+    (happ : proxyOwned c p = false) (hdns : dnsCaptured c p = false) :
+    evalTable (d + 2) (rulesOf c p.fam) .nat .output p = .redirect c.proxyPort ↔ outboundCaptured c p = true := by
+  rw [outbound_app c p d h happ]
+  have : outboundDNSCaptured c p = false := by simp [outboundDNSCaptured, hdns]
+  simp only [this, Bool.false_eq_true, if_false]
+  by_cases hc : outboundCaptured c p = true <;> simp [hc]
+
+/-- ... and when it is not captured it is left alone (no other redirect, no drop). -/
+theorem outbound_exact_else (c : Config) (p : Packet) (d : Nat) (h : famOn c p.fam = true)
+    (happ : proxyOwned c p = false) (hdns : dnsCaptured c p = false) (hc : outboundCaptured c p = false) :
+    evalTable (d + 2) (rulesOf c p.fam) .nat .output p = .accept p := by
+  rw [outbound_app c p d h happ]
+  have : outboundDNSCaptured c p = false := by simp [outboundDNSCaptured, hdns]
+  simp [this, hc]
+
+/-- The readable special case: off `lo`, default owner-group filter, no port inclusions, not the
+    passthrough source - an application TCP packet is redirected iff its destination is included, not
+    excluded, not loopback, and neither its port nor its interface is excluded. -/
+theorem outbound_exact_plain (c : Config) (p : Packet) (d : Nat) (h : famOn c p.fam = true)
+    (happ : proxyOwned c p = false) (hdns : c.dns = false) (htcp : p.proto = .tcp) (hlo : p.outIf ≠ "lo")
+    (hog : c.ownerGroupsAll = true ∧ c.ownerGroupsExclude = []) (hpi : c.outPortsInclude = []) :
+    evalTable (d + 2) (rulesOf c p.fam) .nat .output p = .redirect c.proxyPort ↔
+      (dstIncluded c p = true ∧ dstExcluded c p = false ∧ loopbackDst c p = false ∧
+       c.outPortsExclude.contains p.dport = false ∧ c.exclIfs.contains p.outIf = false) := by
+  rw [outbound_exact c p d h happ (by simp [dnsCaptured, hdns])]
+  have hlo' : (p.outIf == "lo") = false := by simpa using hlo
+  simp [outboundCaptured, isTcp, htcp, outIfExcluded, outPortExcluded, isTcpUdp, fromPassthrough, onLo, hlo',
+    loopbackBypass, ownerGroupCaptured, hog.1, hog.2, outPortIncluded, hpi]
+  constructor
+  · rintro ⟨⟨⟨⟨h1, h2⟩, h3⟩, h4⟩, h5⟩; exact ⟨h5, h4, h3, h2, h1⟩
+  · rintro ⟨h5, h4, h3, h2, h1⟩; exact ⟨⟨⟨⟨h1, h2⟩, h3⟩, h4⟩, h5⟩
+
+/-! ## loopback_alone -/
+
+/-- **loopback_alone.** Application traffic on `lo` (whatever its destination) is left alone, as soon
+    as a proxy identity is configured and no loopback range was explicitly included; with DNS capture
+    the guarantee covers TCP except port 53 (kept capturable on purpose for a resolver on localhost). -/
+theorem loopback_alone (c : Config) (p : Packet) (d : Nat) (h : famOn c p.fam = true)
+    (happ : proxyOwned c p = false) (hlo : p.outIf = "lo") (hid : hasProxyIdentity c = true)
+    (hincl : c.noLoopbackIncluded = true) (hdns : c.dns = false ∨ (p.proto = .tcp ∧ p.dport ≠ 53)) :
+    evalTable (d + 2) (rulesOf c p.fam) .nat .output p = .accept p := by
+  rw [outbound_app c p d h happ]
+  have hb : loopbackBypass c p = true := by
+    unfold loopbackBypass onLo isTcp
+    rcases hdns with hd | ⟨ht, hp⟩
+    · simp [hlo, hincl, hd]
+    · simp [hlo, hincl, ht, hp]
+  simp [outboundDNSCaptured, outboundCaptured, hid, hb]
+
+/-- The destination-based half: whatever the interface, packets for the loopback range that are not
+    DNS-captured are never sent to the outbound port. -/
+theorem loopback_dst_alone (c : Config) (p : Packet) (d : Nat) (h : famOn c p.fam = true)
+    (happ : proxyOwned c p = false) (hdns : dnsCaptured c p = false) (hdst : loopbackDst c p = true) :
+    evalTable (d + 2) (rulesOf c p.fam) .nat .output p = .accept p := by
+  apply outbound_exact_else c p d h happ hdns
+  simp [outboundCaptured, hdst]
+
+/-- multi_uid_note (recorded observation, not claimed by the property): with several proxy
+    identities and the loopback bypass in force, a packet owned by a LATER identity is handed back by
+    the first identity's `! --uid-owner` RETURN rule, so its call-to-self is not sent to the inbound
+    listener (only the first identity's is). no_loop is unaffected. -/
+theorem multi_identity_shadow (c : Config) (p : Packet) (d : Nat) (h : famOn c p.fam = true)
+    (o : OwnerId) (rest : List OwnerId) (hids : c.identities = o :: rest) (hfirst : o.owns p = false)
+    (hb : loopbackBypass c p = true)
+    (hearly : outIfExcluded c p = false ∧ outPortExcluded c p = false ∧ fromPassthrough p = false) :
+    evalTable (d + 2) (rulesOf c p.fam) .nat .output p = .accept p := by
+  rw [nat_output_correct c p d h]
+  simp [natOutputSpec, hearly.1, hearly.2.1, hearly.2.2, hids, identityWalk, hfirst, hb]
 
 end IstioModel.C20
